@@ -45,3 +45,15 @@ while True:
     db.Setting = [90, 91, 92, 93, 94, 95, 96][min(max(d0.Setting, 0), 6)]
     yield_()
 """, pool=[0.0, 1.0, 2.0, 3.0, 4.0, 5.0, 6.0])
+prog("D10-device-id-capture", "C04", """
+def work(a):
+    id0 = d0.ReferenceId
+    o0 = Device(ref_id=id0)
+    d5.Setting = o0.On
+    d5.Setting = o0.On
+    db.Setting = o0.On + o0.Lock
+while True:
+    work(d3.Setting + 0)
+    work(d3.Setting + 1)
+    yield_()
+""", pool=[1.0, 2.0, 3.0, 5.0, 8.0, 13.0])
